@@ -5,7 +5,7 @@
    the decoder is replayed on the new bytes.  Every kind also fills exactly Size() bytes (C01SizeProofs). *)
 From V.lib Require Import Base.
 From V.c01 Require Import C01Codec C01Model C01LeafProofs C01Leaf2Proofs C01Leaf3Proofs C01Leaf4Proofs C01Leaf5Proofs
-  C01TableProofs C01TreeProofs C01SizeProofs C01LocalProofs C01EsdsProofs.
+  C01TableProofs C01TreeProofs C01SizeProofs C01LocalProofs C01EsdsProofs C01SgpdProofs.
 
 (* the header seen at decode is the one the encoder writes (what exact_box asks of a leaf) *)
 Definition hdr_fits (h : hdr) (l : leaf) : Prop :=
@@ -739,6 +739,64 @@ Qed.
 Lemma stable_uuid : leaf_stable dec_uuid.
 Proof. apply stable_of_local; [exact lossless_uuid|exact local_uuid|exact norsv_uuid|exact sized_uuid]. Qed.
 
+(* ---------------------------------------------------------------- sgpd *)
+Lemma many_forall_ok {A} (p : parser A) (P : A -> Prop) :
+  (forall bs a r, bytes_ok bs = true -> p bs = Ok (a, r) -> bytes_ok r = true /\ P a) ->
+  forall f cnt bs l r, bytes_ok bs = true -> rd_many f cnt p bs = Ok (l, r) -> Forall P l.
+Proof.
+  intros Hp. induction f as [|f IH]; intros cnt bs l r Hok H; cbn [rd_many] in H.
+  - destruct (cnt =? 0); [|discriminate]. injection H as <- <-. constructor.
+  - destruct (cnt =? 0); [injection H as <- <-; constructor|].
+    destruct (p bs) as [[a r1]| | |] eqn:E1; try discriminate.
+    destruct (rd_many f (cnt - 1) p r1) as [[l' r']| | |] eqn:E2; try discriminate.
+    injection H as <- <-. destruct (Hp _ _ _ Hok E1) as [Hok1 Ha]. constructor; [exact Ha|exact (IH _ _ _ _ Hok1 E2)].
+Qed.
+
+Lemma sgpd_facts h r l rsv r' : bytes_ok r = true -> dec_sgpd h r = Ok ((l, rsv), r') ->
+  leaf_size_guard l = true /\ (leaf_guard l = true -> rsv = dflt_rsv l).
+Proof.
+  intros Hok H. unfold dec_sgpd in H. do 2 step H.
+  apply pbind_ok in H. destruct H as (dlen & r3 & Ed & H). cbv beta zeta in H.
+  assert (Hd0 : (1 <=? vf_version a) = false -> dlen = 0).
+  { intros Hv. rewrite Hv in Ed. unfold rd_if, pret in Ed. now injection Ed as <- _. }
+  assert (Hok3 : bytes_ok r3 = true).
+  { match type of Ed with _ ?x = _ => assert (Hk : bytes_ok x = true) by assumption end.
+    unfold rd_if in Ed. destruct (1 <=? vf_version a); [now destruct (rd_spec _ _ _ _ Hk Ed) as (_ & _ & ?)|inj_pret Ed; assumption]. }
+  clear Ed. apply pbind_ok in H. destruct H as (dgdi & r4 & Eg & H). cbv beta zeta in H.
+  assert (Hok4 : bytes_ok r4 = true).
+  { unfold rd_if in Eg. destruct (2 <=? vf_version a); [now destruct (rd_spec _ _ _ _ Hok3 Eg) as (_ & _ & ?)|inj_pret Eg; assumption]. }
+  clear Eg. apply pbind_ok in H. destruct H as (cnt & r5 & Ec & H). cbv beta zeta in H.
+  destruct (rd_spec _ _ _ _ Hok4 Ec) as (_ & _ & Hok5). clear Ec.
+  apply pbind_ok in H. destruct H as (its & r6 & E & H). inj_pret H.
+  pose proof (many_forall_ok _ (fun it => lenN (wr_sge (snd (fst it)) 0) = fst (fst it) /\
+      (negb (dlen =? 0) = true -> fst (fst it) = dlen) /\ ((1 <=? vf_version a) = false -> dlen <> 0))
+    (fun bs it r Hb Hp => let '(conj _ (conj p2 (conj p3 (conj _ (conj p5 p6))))) := item_sgpd _ _ _ bs it r Hb Hp in conj p2 (conj p3 (conj p5 p6)))
+    _ _ _ _ _ Hok5 E) as HF.
+  split.
+  - cbn [leaf_size_guard]. repeat (apply andb_true_iff; split).
+    + apply N.eqb_eq. assumption.
+    + apply forallb_forall. intros it Hin. apply in_map_iff in Hin. destruct Hin as (x & <- & Hxin).
+      apply N.eqb_eq. exact (proj1 (proj1 (Forall_forall _ _) HF x Hxin)).
+    + destruct (dlen =? 0) eqn:Ez; [reflexivity|]. cbn [orb]. apply forallb_forall. intros it Hin.
+      apply in_map_iff in Hin. destruct Hin as (x & <- & Hxin). apply N.eqb_eq.
+      exact (proj1 (proj2 (proj1 (Forall_forall _ _) HF x Hxin)) eq_refl).
+    + destruct (1 <=? vf_version a) eqn:Ev; [reflexivity|]. cbn [orb]. apply N.eqb_eq.
+      destruct its as [|x t]; [reflexivity|]. exfalso. inversion HF as [|? ? Hx0 _]; subst.
+      exact (proj2 (proj2 Hx0) eq_refl (Hd0 eq_refl)).
+  - cbn [leaf_guard dflt_rsv]. intros G. f_equal. clear -G. induction its as [|x t IH]; [reflexivity|].
+    cbn [forallb] in G. apply andb_true_iff in G. destruct G as [G1 G2]. apply N.eqb_eq in G1.
+    cbn [map]. now rewrite G1, (IH G2).
+Qed.
+
+Lemma stable_sgpd : leaf_stable dec_sgpd.
+Proof.
+  intros h r l rsv r' Hok Hnm H G Hf _.
+  destruct (sgpd_facts _ _ _ _ _ Hok H) as [Hsg Hd]. specialize (Hd G). subst rsv.
+  destruct (lossless_sgpd _ _ _ _ _ Hok H G) as (b & Hb & -> & Hok').
+  exists b. split; [exact Hb|]. split; [now rewrite lenN_app|]. split; [now apply body_size|].
+  destruct (local_sgpd h _ _ _ H) as (x & Hx & Hall). apply app_inv_tail in Hx. subst x. exact Hall.
+Qed.
+
 (* ---------------------------------------------------------------- every table entry *)
 Lemma pre_leaf_stable d : pre_stable d -> leaf_stable d.
 Proof. intros H h r l rsv r' Hok Hnm E G _ _. exact (H _ _ _ _ _ Hok Hnm E G). Qed.
@@ -802,7 +860,7 @@ Proof.
           | exact (pre_leaf_stable _ pstable_tfra) | exact stable_pssh | exact stable_url | exact stable_avcC
           | exact stable_btrt | exact stable_pasp | exact (pre_leaf_stable _ pstable_colr) | exact stable_clap
           | exact stable_schm | exact stable_cslg | exact stable_senc | exact stable_emsg | exact stable_elng
-          | exact stable_kind | exact stable_hvcC | exact stable_subs | exact stable_esds | exact stable_uuid ].
+          | exact stable_kind | exact stable_hvcC | exact stable_subs | exact stable_esds | exact stable_uuid | exact stable_sgpd ].
 Qed.
 
 Lemma pre_table_stable : Forall (fun e => pre_stable (fst (snd e))) pre_table.
